@@ -834,3 +834,18 @@ if __name__ == '__main__':
                                                                   r['summary']['stale'], r['wall_s'], ('BROKEN: ' + r['broken']) if r['broken'] else 'ok'))
         bad += bool(r['broken'])
     sys.exit(1 if bad else 0)
+
+# ---- round 4 (seeded changes d1..d3): rules added after first contact
+ND = 'pyasn1/codec/native/decoder.py'
+NTY = 'pyasn1/type/namedtype.py'
+V('M-no-clear-indef', ['C08', 'C10', 'C16'], 'A13.clear', BD, "        asn1Object = asn1Spec.clone()\n        asn1Object.clear()\n", "        asn1Object = asn1Spec.clone()\n", count=2)
+V('M-scalar-proto-tag', ['C16'], 'C16.tags', BD, "            return self.protoComponent.clone(value, tagSet=tagSet)", "            return self.protoComponent.clone(value)")
+V('M-native-binvalue', ['C17'], 'C17.native', ND, "        return asn1Spec.clone(univ.BitString.fromBinaryString(pyObject))", "        return asn1Spec.clone(binValue=pyObject)")
+V('M-openflag-elif', ['C18'], 'A6.openflag', NTY,
+  "        self.__hasOpenTypes = any([True for namedType in self.__namedTypes\n                                   if namedType.openType])",
+  "        self.__hasOpenTypes = any([True for namedType in self.__namedTypes\n                                   if namedType.openType and not namedType.isOptional])")
+V('M-dot-window', ['C20'], 'A11.canon', CE, "        if self.DOT_CHAR in numbers:", "        if self.DOT_CHAR in numbers[-5:]:")
+V('M-cer-bool-next', ['C05', 'C06'], 'A2.next', CD,
+  "        for chunk in readFromStream(substrate, length, options):\n            if isinstance(chunk, SubstrateUnderrunError):\n                yield chunk\n\n        byte = oct2int(chunk[0])",
+  "        chunk = next(readFromStream(substrate, length, options))\n\n        byte = oct2int(chunk[0])")
+V('M-no-probe', ['C05', 'C06', 'C08'], ('A2.probe', 'A3.trunc'), ST, "            more = substrate.read(1)", "            more = None if not isinstance(substrate, io.BytesIO) else substrate.read(1)")
